@@ -55,6 +55,35 @@ META = {
               'principal eigenpair. Closeness to the defining formulas / convergence are NOT decided.',
         note='Trusted: parameter naming of the estimators. Shares rule instances with C01-C03.',
         design='DESIGN.md section 3 (C08)'),
+    'C10': dict(
+        technique='static analysis: einsum contraction-structure rules, axis/guard pattern rules, may-alias in-place analysis, library-API existence check',
+        level='The defining sum of the PSD estimate is decided structurally for all three contractions (time index shared and summed, conjugate on the second sensor factor, source '
+              'index first), the mask normalisation (time axis parameter, positive floor, only under normalize), the frame-count normaliser, the defensive copy (no in-place effect reaches '
+              'mask / observation), existence of every numpy attribute used (boolean-mask conversion), the roll guard and the form of condition_covariance. '
+              'PSD-ness and numeric layout equivalence are NOT decided.',
+        note='Trusted: the defining formula in the property statement, numpy semantics table; numpy is imported only to resolve attribute names.',
+        design='DESIGN.md section 3 (C10)'),
+    'C11': dict(
+        technique='static analysis: operand-role rules on term graphs, einsum sesquilinear structure, arg-max direction, abstract shapes for the NumPy>=2 solve contract',
+        level='Roles of every operand of solve / stable_solve / trace / column selection in MVDR, Souden MVDR, WMWF, LCMV and the reference-channel criterion, exactly-one-conjugate '
+              'inner products, arg-MAX of target-over-noise SNR, and that stacks of steering vectors reach numpy.linalg.solve as explicit column matrices. '
+              'Optimality inequalities and scaling invariances are NOT decided.',
+        note='Trusted: NumPy >= 2 semantics of linalg.solve, documented argument shapes.',
+        design='DESIGN.md section 3 (C11)'),
+    'C12': dict(
+        technique='static analysis: eigenpair-selection direction (R-SEL), operand roles, einsum structure, shape of scaling factors',
+        level='eigh(target, noise) argument order, arg-max eigenvalue column / last pair of the ascending eigh, outer products with the conjugate on the second factor rescaled by '
+              'tr(Phi)/tr(a a^H), Phi_nn w contracting the column index, both BAN chains and the (..., 1)-shaped absolute gain. Maximality of Rayleigh quotients is NOT decided; '
+              'Cython variants are not analysed.',
+        note='Trusted: scipy.linalg.eigh(a, b) convention, numpy eigh ordering.',
+        design='DESIGN.md section 3 (C12)'),
+    'C13': dict(
+        technique='static analysis: partial evaluation of the wrapper on every accepted name (constant propagation + branch pruning), literal-axis rule for (..., ) functions, index-local loop rule',
+        level='For all 12 names x {plain, +ban} plus chN: the primitives called, their order, the slots they are chained through and the returned value equal the composition the name spells. '
+              'apply_beamforming_vector contracts conj(w) with the sensor axis; every literal axis in (..., )-documented beamforming functions counts from the right (phase_correction: -2); '
+              'stable_solve falls back per matrix, index-local; MVDR solves stacks as columns. Finite-ness on singular input is NOT decided.',
+        note='Trusted: the naming convention of the wrapper itself; exceptions table for front-broadcast / fixed-layout axes.',
+        design='DESIGN.md section 3 (C13)'),
 }
 
 ALL = sorted(META)
